@@ -122,7 +122,10 @@ static void gen_roundtrip_cfg(const std::string &tier, uint64_t seed, long idx, 
     pick_sched(g, s, 1, T, true);
   }
 }
-static void gen_C01(const std::string &tier, uint64_t seed, long idx, Scn &s) { gen_roundtrip_cfg(tier, seed, idx, s, "C01"); }
+static void gen_C01(const std::string &tier, uint64_t seed, long idx, Scn &s) {
+  gen_roundtrip_cfg(tier, seed, idx, s, "C01");
+  if (!is_prod() && idx % 23 == 7) s.i["fresh"] = 1;   // first operations of a pristine process
+}
 
 static Verdict run_C01(const Scn &s) {
   int T = (int)s.geti("T");
@@ -396,6 +399,7 @@ static void gen_sched_cfg(const std::string &tier, uint64_t seed, long idx, Scn 
   Rng gs(Rng::mix(seed, fnv1a(FNV_INIT, prop, 3), (uint64_t)idx));
   pick_sched(gs, s, 1, T, true);
   if (std::string(prop) == "C14" && gs.chance(0.5)) s.i["st1"] = simsched::ST_HOOKBIAS;
+  if (!is_prod() && idx % 19 == 5) s.i["fresh"] = 1;   // explored operation = first pipeline operation of a pristine process
   if (is_prod()) { s.i["st1"] = simsched::ST_STICKY; s.i["sp1"] = 9999; }
 }
 static void gen_C03(const std::string &tier, uint64_t seed, long idx, Scn &s) { gen_sched_cfg(tier, seed, idx, s, "C03", tier == "quick" ? 60 : 300); }
@@ -423,7 +427,7 @@ static Explored explore(const Scn &s, HangPolicy explored_hp = HANG_VIOLATION) {
   Scn canon = s;   // canonical: rr, no faults, plain I/O
   if (X.enc) {
     X.input = X.P;
-    {
+    auto canonical = [&]() {
       SimFile fin, fout;
       fin.data = X.P;
       OpSpec e = base_op(s, OP_ENC, 2, &fin, &fout, len);
@@ -432,15 +436,18 @@ static Explored explore(const Scn &s, HangPolicy explored_hp = HANG_VIOLATION) {
       X.can = run_slot(s, e, 2, "enc(canonical)", HANG_SKIP);
       X.can_ret = X.can.ret;
       X.can_out = fout.data;
-    }
-    {
+    };
+    auto explored = [&]() {
       SimFile fin, fout;
       fin.data = X.P;
       OpSpec e = base_op(s, OP_ENC, 1, &fin, &fout, len);
       X.exp = run_slot(s, e, 1, "enc", explored_hp);
       X.exp_ret = X.exp.ret;
       X.exp_out = fout.data;
-    }
+    };
+    // in a pristine process the explored schedule goes first, so that whatever the code initialises lazily is initialised
+    // under it (a hang of the canonical run afterwards is then reported like any other)
+    if (s.geti("fresh")) { explored(); canonical(); } else { canonical(); explored(); }
   } else {
     Bytes F;
     {
@@ -454,7 +461,7 @@ static Explored explore(const Scn &s, HangPolicy explored_hp = HANG_VIOLATION) {
       F = fout.data;
     }
     X.input = F;
-    {
+    auto canonical = [&]() {
       SimFile fin, fout;
       fin.data = F;
       OpSpec d = base_op(s, OP_DEC, 2, &fin, &fout, (long)F.size());
@@ -463,15 +470,16 @@ static Explored explore(const Scn &s, HangPolicy explored_hp = HANG_VIOLATION) {
       X.can = run_slot(s, d, 2, "dec(canonical)", HANG_SKIP);
       X.can_ret = X.can.ret;
       X.can_out = fout.data;
-    }
-    {
+    };
+    auto explored = [&]() {
       SimFile fin, fout;
       fin.data = F;
       OpSpec d = base_op(s, OP_DEC, 1, &fin, &fout, (long)F.size());
       X.exp = run_slot(s, d, 1, "dec", explored_hp);
       X.exp_ret = X.exp.ret;
       X.exp_out = fout.data;
-    }
+    };
+    if (s.geti("fresh")) { explored(); canonical(); } else { canonical(); explored(); }
   }
   return X;
 }
@@ -618,6 +626,7 @@ static void gen_C04(const std::string &tier, uint64_t seed, long idx, Scn &s) {
   if (g.chance(0.3)) { s.i["st1"] = simsched::ST_STARVE; s.i["sp1"] = (long)g.below(T + 1); }
   if (g.chance(0.3)) s.i["sw1"] = 8;
   if (is_prod()) { s.i["st1"] = simsched::ST_STICKY; s.i["sp1"] = 9999; s.i["sw1"] = 2; }
+  if (!is_prod() && idx % 19 == 5) s.i["fresh"] = 1;
 }
 
 static Verdict run_C04(const Scn &s) {
